@@ -65,11 +65,18 @@ def build(rng, triple):
                     M.cutter.site, gen.rc(M.cutter.site)})
     if ytk:
         nm = 1
-        while True:
-            oo = gen.rnd(rng, 2) + "GG"
-            if gen.rc(oo) != oo and oo != "GACC" and gen.rc(oo) != "GACC":
+        # the product's own overhangs are whatever its live structure spells (NNGG / GACC as the kit is now)
+        toks = gen.tokens(M.structure())
+        g1 = [x[1] for x in toks[toks.index(("open",)) + 1:toks.index(("close",))]]
+        closes = [i for i, x in enumerate(toks) if x == ("close",)]
+        opens = [i for i, x in enumerate(toks) if x == ("open",)]
+        g3 = [x[1] for x in toks[opens[2] + 1:closes[2]]]
+        for _ in range(200):
+            oo = "".join(rng.choice(gen.IUPAC[c]) for c in g1)
+            o3 = "".join(rng.choice(gen.IUPAC[c]) for c in g3)
+            if gen.rc(oo) != oo and oo != o3 and gen.rc(oo) != o3:
                 break
-        ovs = [oo, "GACC"]
+        ovs = [oo, o3]
     else:
         nm = rng.randint(1, 3)
         ovs = gen.distinct_overhangs(rng, k, nm + 1, forbid)
@@ -92,7 +99,10 @@ def build(rng, triple):
             if s is None:
                 return None
             s += gen.rnd_avoid(rng, rng.randint(0, 8), forbid)
-            if sites(s, M.cutter) == 2 and sites(g[0] + g[1] + (g[2] if ytk else ""), Nx.cutter) == (2 if ytk else 0):
+            # (YTK: the two next-level sites come from the product itself; fewer than two on the product is a
+            # failure of the design and is reported by check_case, not filtered out here)
+            if sites(s, M.cutter) == 2 and (sites(g[0] + g[1] + g[2], Nx.cutter) <= 2 if ytk
+                                             else sites(g[0] + g[1], Nx.cutter) == 0):
                 break
         else:
             return None
